@@ -15,7 +15,7 @@ import (
 
 // C17 — truncated or ill-formed expressions are rejected by Compile.
 
-const ruleC17 = "rapid x exhaustive positions: a valid expression from the well-typed generators (node-set, boolean, arithmetic, string, regex fragments; verified to be accepted, else the generator is at fault and the check fails loudly) or, one time in six, from the unconstrained generator (kept when Compile accepts it), rendered to a token stream; then EVERY applicable position of every damage operator of the statement: cut after a binary operator; after a '/' that follows a step or after '//'; after '[', '(', an opening quote, a comma; delete one ']', ')', closing quote; rename a function to an unknown name; remove required arguments (per a table of XPath's required arities; optional arguments stay optional); replace an axis name by an unknown one; malform a qualified name (p:, p:q:r, :q, 'p :q', 'p: q', p<tab>:<tab>q). Literals contain no quote characters and one quote style per expression, so a deleted quote always leaves an odd count. Oracle: Compile(damaged) returns an error (and no expression, no panic), and so does a second Compile of the same text right after it. A lone leading '/' is never cut after ('/' is a valid expression). Non-trivial: every damaged string counts once, distinct by text; labels give the count per damage class."
+const ruleC17 = "rapid x exhaustive positions: a valid expression from the well-typed generators (node-set, boolean, arithmetic, string, regex fragments; verified to be accepted, else the generator is at fault and the check fails loudly) or, one time in six, from the unconstrained generator (kept when Compile accepts it), rendered to a token stream; then EVERY applicable position of every damage operator of the statement: cut after a binary operator; after a '/' that follows a step or after '//'; after '[', '(', an opening quote, a comma; delete one ']', ')', closing quote; rename a function to an unknown name; remove required arguments (per a table of XPath's required arities; optional arguments stay optional); replace an axis name by an unknown one (name+x, and near misses: name-or-self, name-sibling, xname, names, a doubled letter ... unless that spells a real axis); malform a qualified name (p:, p:q:r, :q, 'p :q', 'p: q', p<tab>:<tab>q). Literals contain no quote characters and one quote style per expression, so a deleted quote always leaves an odd count. Oracle: Compile(damaged) returns an error (and no expression, no panic), and so does a second Compile of the same text right after it. A lone leading '/' is never cut after ('/' is a valid expression). Non-trivial: every damaged string counts once, distinct by text; labels give the count per damage class."
 
 var uC17 = harness.NewUnit("C17", "rapid-damaged-expressions", ruleC17)
 
@@ -43,6 +43,9 @@ func oracleC17(l *harness.Live) *harness.Failure {
 	}
 	return nil
 }
+
+var validAxis = map[string]bool{"ancestor": true, "ancestor-or-self": true, "attribute": true, "child": true, "descendant": true, "descendant-or-self": true,
+	"following": true, "following-sibling": true, "namespace": true, "parent": true, "preceding": true, "preceding-sibling": true, "self": true}
 
 var nodeTypeNames = map[string]bool{"node": true, "text": true, "comment": true, "processing-instruction": true}
 
@@ -169,6 +172,12 @@ func damages(toks []xast.Token) []damaged {
 			}
 		case t.Kind == xast.TName && next == "::":
 			replace("unknown-axis", i, t.Text+"x")
+			// near misses of real axis names: a suffix or prefix that other axes carry, a plural, a typo
+			for _, cand := range []string{t.Text + "-or-self", t.Text + "-sibling", "x" + t.Text, t.Text + "s", strings.TrimSuffix(t.Text, "-or-self") + "-or-selfs", strings.Replace(t.Text, "e", "ee", 1), "ancestors-or-self", "descendent"} {
+				if !validAxis[cand] && cand != t.Text {
+					replace("unknown-axis", i, cand)
+				}
+			}
 		case t.Kind == xast.TName && !t.Pad && next != "(" && prev != "$":
 			// a name test: malform the qualified name
 			replace("malformed-qname", i, "p:")
